@@ -37,6 +37,7 @@ type JobSpec struct {
 	MaxDepth     int                         `json:"max_depth"`
 	MaxPaths     int64                       `json:"max_paths"`
 	Bound        string                      `json:"bound"` // human-readable statement of the bound
+	Overrides    []string                    `json:"overrides"` // target=replacement, in addition to the harness files' //gosx:override lines
 	ExploreSched bool                        `json:"explore_sched"` // fork over every choice among several ready select cases (arrival orders of worker results)
 	SchedBudget  int                         `json:"sched_budget"` // at most this many scheduling choices are forked per path (0 = all)
 	ReplayRepeat int                         `json:"replay_repeat"` // native replays are repeated up to this many times until one confirms (schedule-dependent behaviour)
@@ -174,6 +175,7 @@ func cmdCheck(args []string) int {
 
 	var results []*jobResult
 	var problems []string
+	jobOverrides := map[string][][2]string{}
 	for _, js := range spec.Jobs {
 		if *only != "" && js.Name != *only {
 			continue
@@ -182,7 +184,15 @@ func cmdCheck(args []string) int {
 		if !ok {
 			continue
 		}
-		jr := runJob(p, &js, params, *workers, *solver, *paranoid, allOverrides, *trace, *verbose)
+		jobOv := append([][2]string(nil), allOverrides...)
+		for _, o := range js.Overrides {
+			kv := strings.SplitN(o, "=", 2)
+			if len(kv) == 2 {
+				jobOv = append(jobOv, [2]string{strings.TrimSpace(kv[0]), strings.TrimSpace(kv[1])})
+			}
+		}
+		jobOverrides[js.Name] = jobOv
+		jr := runJob(p, &js, params, *workers, *solver, *paranoid, jobOv, *trace, *verbose)
 		results = append(results, jr)
 		fmt.Printf("[%s/%s] paths=%d outcomes{%s} queries=%d solver=%.1fs quick=%d wall=%.1fs reach{%s}\n", *prop, js.Name, jr.Paths, outcomeString(jr.Outcomes), jr.Queries, jr.SolverS, jr.QuickDec, jr.WallS, outcomeString(jr.Reach))
 		problems = append(problems, jr.problems...)
@@ -254,7 +264,7 @@ func cmdCheck(args []string) int {
 				continue
 			}
 			perGroup[key]++
-			bin, err := rp.binFor(rel, allOverrides)
+			bin, err := rp.binFor(rel, jobOverrides[jr.Name])
 			if err != nil {
 				fmt.Println(err)
 				problems = append(problems, "native replay build failed")
@@ -285,7 +295,7 @@ func cmdCheck(args []string) int {
 		}
 		// validation of sampled ok paths: the native run must produce the same observations
 		for i, vc := range jr.validation {
-			bin, err := rp.binFor(rel, allOverrides)
+			bin, err := rp.binFor(rel, jobOverrides[jr.Name])
 			if err != nil {
 				fmt.Println(err)
 				problems = append(problems, "native replay build failed")
